@@ -465,7 +465,7 @@ def cv(ctx):
             e = fn.expr_of_operand(t['args'][0])
             root = expr_root(e)
             # keyed by the enclosing named function: whether the notify sits in a closure, a loop or an extracted helper is not part of the identity
-            base = '%s|%s' % (short(fn.root or fn.name), name.split('::')[-1])
+            base = '%s|notify' % short(fn.root or fn.name)      # notify_one / notify_all: the same instance
             seen_keys[base] = seen_keys.get(base, 0) + 1
             key = base if seen_keys[base] == 1 else '%s#%d' % (base, seen_keys[base])
             stored = _stored_condvar(ctx, fn, e)
